@@ -34,7 +34,7 @@ CONSTANTS
     Outs,         \* attempt outcomes offered by the environment
     Durs,         \* attempt durations (ticks)
     CDurs,        \* time spent inside a classifier call (ticks)
-    EDurs,        \* time spent inside the metric/log hooks while a `retry` event is reported
+    EDurs,        \* time spent inside the metric/log hooks while an event is reported
     Rets,         \* strategy return values: records [kind, v]
     Advs,         \* sleeper behaviours: "exact", "over1", "over4", "none" and the faults
                   \* "kbd", "sysexit", "cancel" (sleeper raises a cancellation-type exception)
@@ -235,8 +235,9 @@ SRecSuccess(c, s) ==
 
 Success(c, s) ==
     IF (s.pc = "succ" /\ s.lstrat \notin c.adaptive) \/ s.pc = "succ2" THEN
-        { <<EvEmit("success", s.att, 0, "-", FALSE, "-", "-", None, c.opname, s.now),
-            ViaEnd(c, [s EXCEPT !.dkind = "ok"], "success", "-", "-", None, "deliver")>> }
+        { <<EvEmitD("success", s.att, 0, "-", FALSE, "-", "-", None, c.opname, d, s.now),
+            ViaEnd(c, [s EXCEPT !.dkind = "ok", !.now = @ + d], "success", "-", "-", None, "deliver")>>
+          : d \in EDurs }
     ELSE {}
 
 PollFail(c, s) ==
@@ -268,9 +269,11 @@ LateStop(c, s1) ==
     ELSE IF s1.att >= c.maxAtt THEN "MAX_ATTEMPTS_GLOBAL"
     ELSE "-"
 
+\* every event passes through the metric and log hooks, which may take time (d)
 StopStep(c, s, s1, k, hard) ==
-    <<EvEmit(StopEvent(hard), s.att, 0, k, Err(s.ccause), hard, s.ccause, None, c.opname, s.now),
-      ViaEnd(c, [s1 EXCEPT !.dkind = "stop", !.stop = hard], "raise", hard, s.ccause, None, "deliver")>>
+    { <<EvEmitD(StopEvent(hard), s.att, 0, k, Err(s.ccause), hard, s.ccause, None, c.opname, d, s.now),
+        ViaEnd(c, [s1 EXCEPT !.dkind = "stop", !.stop = hard, !.now = @ + d], "raise", hard, s.ccause,
+               None, "deliver")>> : d \in EDurs }
 
 StrategyStep(c, s, s1, k, r) ==
     LET which == StrategyFor(c, k)
@@ -290,14 +293,14 @@ Handle(c, s) ==
             early == EarlyStop(c, s1, k)
             which == StrategyFor(c, k)
             s2    == [s1 EXCEPT !.lstrat = which]
-        IN  IF early # "-" THEN { StopStep(c, s, s1, k, early) }
+        IN  IF early # "-" THEN StopStep(c, s, s1, k, early)
             ELSE IF which \in c.adaptive THEN
                 { <<EvSRec(which, "failure", k, s.now), [s2 EXCEPT !.pc = "handle2"]>> }
-            ELSE IF LateStop(c, s2) # "-" THEN { StopStep(c, s, s2, k, LateStop(c, s2)) }
+            ELSE IF LateStop(c, s2) # "-" THEN StopStep(c, s, s2, k, LateStop(c, s2))
             ELSE { StrategyStep(c, s, s2, k, r) : r \in Rets }
     ELSE IF s.pc = "handle2" THEN
         LET k == s.ck IN
-        IF LateStop(c, s) # "-" THEN { StopStep(c, s, s, k, LateStop(c, s)) }
+        IF LateStop(c, s) # "-" THEN StopStep(c, s, s, k, LateStop(c, s))
         ELSE { StrategyStep(c, s, s, k, r) : r \in Rets }
     ELSE {}
 
@@ -312,10 +315,10 @@ Consume(c, s) ==
 
 BudgetStop(c, s) ==
     IF s.pc = "budgetstop" THEN
-        { <<EvEmit("budget_exhausted", s.att, 0, s.lk, Err(s.lcause), "BUDGET_EXHAUSTED",
-                   s.lcause, None, c.opname, s.now),
-            ViaEnd(c, [s EXCEPT !.dkind = "stop", !.stop = "BUDGET_EXHAUSTED"], "raise",
-                   "BUDGET_EXHAUSTED", s.ccause, None, "deliver")>> }
+        { <<EvEmitD("budget_exhausted", s.att, 0, s.lk, Err(s.lcause), "BUDGET_EXHAUSTED",
+                    s.lcause, None, c.opname, d, s.now),
+            ViaEnd(c, [s EXCEPT !.dkind = "stop", !.stop = "BUDGET_EXHAUSTED", !.now = @ + d], "raise",
+                   "BUDGET_EXHAUSTED", s.ccause, None, "deliver")>> : d \in EDurs }
     ELSE {}
 
 RetryEmit(c, s) ==
@@ -366,39 +369,40 @@ Sleep(c, s) ==
 
 DeadlineEmit(c, s) ==
     IF s.pc = "dlemit" THEN
-        { <<EvEmit("deadline_exceeded", s.att, 0, s.lk, Err(s.lcause), "DEADLINE_EXCEEDED",
-                   s.lcause, None, c.opname, s.now),
-            ViaEnd(c, [s EXCEPT !.dkind = "stop", !.stop = "DEADLINE_EXCEEDED"], "raise",
-                   "DEADLINE_EXCEEDED", s.ccause, None, "deliver")>> }
+        { <<EvEmitD("deadline_exceeded", s.att, 0, s.lk, Err(s.lcause), "DEADLINE_EXCEEDED",
+                    s.lcause, None, c.opname, d, s.now),
+            ViaEnd(c, [s EXCEPT !.dkind = "stop", !.stop = "DEADLINE_EXCEEDED", !.now = @ + d], "raise",
+                   "DEADLINE_EXCEEDED", s.ccause, None, "deliver")>> : d \in EDurs }
     ELSE {}
 
 SchedEmit(c, s) ==
     IF s.pc = "schedemit" THEN
-        { <<EvEmit("scheduled", s.att, s.sl, s.lk, Err(s.lcause), "SCHEDULED", s.lcause, None,
-                   c.opname, s.now),
-            ViaEnd(c, [s EXCEPT !.dkind = "stop", !.stop = "SCHEDULED"], "scheduled", "SCHEDULED",
-                   s.ccause, s.sl, "deliver")>> }
+        { <<EvEmitD("scheduled", s.att, s.sl, s.lk, Err(s.lcause), "SCHEDULED", s.lcause, None,
+                    c.opname, d, s.now),
+            ViaEnd(c, [s EXCEPT !.dkind = "stop", !.stop = "SCHEDULED", !.now = @ + d], "scheduled",
+                   "SCHEDULED", s.ccause, s.sl, "deliver")>> : d \in EDurs }
     ELSE {}
 
 AbortEmit(c, s) ==
     IF s.pc = "abortemit" THEN
-        { <<EvEmit("aborted", s.abn, 0, "-", FALSE, "ABORTED", "-", None, c.opname, s.now),
-            LET s1 == [s EXCEPT !.dkind = "abort", !.stop = "ABORTED"] IN
+        { <<EvEmitD("aborted", s.abn, 0, "-", FALSE, "ABORTED", "-", None, c.opname, d, s.now),
+            LET s1 == [s EXCEPT !.dkind = "abort", !.stop = "ABORTED", !.now = @ + d] IN
             \* sleep-handler ABORT: the outcome goes through on_attempt_end in both styles;
             \* abort_if after a failure: only execute() calls on_attempt_end (call() lets the
             \* AbortRetryError propagate from inside its except block)
             IF s.absrc = "handler" THEN ViaEnd(c, s1, "aborted", "ABORTED", s.ccause, None, "deliver")
             ELSE IF s.absrc \in {"fail", "retry"} /\ s.mode = "exec"
                  THEN ViaEnd(c, s1, "aborted", "ABORTED", s.acause, None, "deliver")
-            ELSE [s1 EXCEPT !.pc = "deliver"]>> }
+            ELSE [s1 EXCEPT !.pc = "deliver"]>> : d \in EDurs }
     ELSE {}
 
 \* max_attempts = 0: the loop body never runs (emit_max_attempts_exceeded)
 ZeroExhausted(c, s) ==
     IF s.pc = "zeroexh" THEN
-        { <<EvEmit("max_attempts_exceeded", 0, 0, "-", FALSE, "MAX_ATTEMPTS_GLOBAL", "-", None,
-                   c.opname, s.now),
-            [s EXCEPT !.pc = "deliver", !.dkind = "zero", !.stop = "MAX_ATTEMPTS_GLOBAL"]>> }
+        { <<EvEmitD("max_attempts_exceeded", 0, 0, "-", FALSE, "MAX_ATTEMPTS_GLOBAL", "-", None,
+                    c.opname, d, s.now),
+            [s EXCEPT !.pc = "deliver", !.dkind = "zero", !.stop = "MAX_ATTEMPTS_GLOBAL", !.now = @ + d]>>
+          : d \in EDurs }
     ELSE {}
 
 (***************************************************************************)
